@@ -346,8 +346,9 @@ func parsePESOptionalHeader(i *astikit.BytesIterator) (h *PESOptionalHeader, dat
 				err = fmt.Errorf("astits: fetching next byte failed: %w", err)
 				return
 			}
-			// TODO it's only a length of pack_header, should read it all. now it's wrong
+			// This is the length of the pack_header that follows: its bytes are skipped
 			h.PackField = uint8(b)
+			i.Skip(int(h.PackField))
 		}
 
 		// Program packet sequence counter
